@@ -116,7 +116,7 @@ Section Rot.
     let safe1 := nltb N min_inc (nabs N inc) in
     let safe2 := nltb N min_inc (nabs N (inc - pi)) in
     let Oo := if andb safe1 safe2 then (hs + hd, hs - hd)
-              else (0, if negb safe1 then two * hs else two * hd) in
+              else (0, if negb safe1 then two * hs else (- two) * hd) in
     let om := if nltb N (snd Oo) 0 then snd Oo + pi * two else snd Oo in
     let Om := if nltb N (fst Oo) 0 then fst Oo + pi * two else fst Oo in
     (Om, inc, om).
